@@ -291,7 +291,7 @@ func (s *sess) analyse() error {
 	switch ref.Kind {
 	case refimpl.KindCBC:
 		macLen := ref.MAC.Size()
-		want := 16 + (inner+macLen)/16*16 + 16
+		want := 16 + (inner+macLen)/16*16 + 16 + 16*s.cf.CBCPad
 		if len(body) != want {
 			return setupErr("CBC body is %d bytes, expected IV 16 + padded(%d + MAC %d) = %d", len(body), inner, macLen, want)
 		}
@@ -333,7 +333,7 @@ func (s *sess) refSeal(payload []byte, pad int, cid []byte, seq uint64) ([]byte,
 			Seq16: !s.cf.Short13, WithLength: !s.cf.Short13, Pad: pad, Payload: payload})
 	}
 	return refimpl.Seal12(ref, s.k12, refimpl.Record12{Type: 23, Epoch: s.sndEpoch, Seq: seq, WrapCID: len(cid) > 0, CID: cid,
-		Pad: pad, Payload: payload})
+		Pad: pad, ExtraPadBlocks: s.cf.CBCPad, Payload: payload})
 }
 
 // cbcPlain decrypts the CBC body of a DTLS 1.2 record with the sender's write key (no MAC or padding check).
